@@ -41,13 +41,24 @@ TRUSTED = ['CPython', 'NumPy/math closed forms of the atoms', 'ECOS and SciPy/Hi
 FES = ['ro', 'dro']
 
 # ---- bilinear table --------------------------------------------------------------------------------------
+# decision rules / adaptive decisions come in four declaration styles (whole y.adapt(z), per entry
+# y[j].adapt(z[i]), partial: only y[0].adapt(z[0]), slice y[:1].adapt(z)) and as SUMS with static decisions in both
+# operand orders (static + adaptive, adaptive + static, scaled, with a constant), vector and scalar
+BIL_SUMS = ['x+AD', 'AD+x', 'x-AD', '2x+3AD', '1+x+AD', 'xs+ADs', 'x+AD:entry', 'x+AD:partial', 'AD:slice+x']
+BIL_STYLES = ['AD:entry', 'AD:partial', 'AD:slice', 'ADs:partial', 'ADs:entry']
 BIL_CLASSES = {
-    'ro': ['x', 'xa', 'xs', 'z', 'za', 'zs', 'ldr', 'ldrs', 'ldr0', 'xz', 'cvx'],
-    'dro': ['x', 'xa', 'xs', 'xev', 'z', 'za', 'zs', 'xad', 'xads', 'xz', 'Ex', 'Ez', 'Exz', 'cvx'],
+    'ro': ['x', 'xa', 'xs', 'z', 'za', 'zs', 'ldr', 'ldrs', 'ldr0', 'xz', 'cvx']
+          + [c.replace('AD', 'ldr') for c in BIL_STYLES + BIL_SUMS],
+    'dro': ['x', 'xa', 'xs', 'xev', 'z', 'za', 'zs', 'xad', 'xads', 'xz', 'Ex', 'Ez', 'Exz', 'cvx']
+           + [c.replace('AD', 'xad') for c in BIL_STYLES + BIL_SUMS],
 }
 BIL_DEP = {'x': 'd', 'xa': 'd', 'xs': 'd', 'xev': 'd', 'Ex': 'd', 'ldr0': 'd', 'cvx': 'd',
            'z': 'r', 'za': 'r', 'zs': 'r', 'Ez': 'r',
            'ldr': 'dr', 'ldrs': 'dr', 'xad': 'dr', 'xads': 'dr', 'xz': 'dr', 'Exz': 'dr'}
+for _c in BIL_STYLES + BIL_SUMS:
+    BIL_DEP[_c.replace('AD', 'ldr')] = 'dr'
+    BIL_DEP[_c.replace('AD', 'xad')] = 'dr'
+BIL_OLD = {'ro': 11, 'dro': 14}      # number of leading classes that are paired with every class
 
 
 def bil_must_raise(l, r):
@@ -95,7 +106,16 @@ def gen_cases(tier, seed):
     A12, EXT = R.ALPHA12, R.ALPHA_EXT
     # 1. bilinear table
     for fe in FES:
-        for l, r in itertools.product(BIL_CLASSES[fe], repeat=2):
+        cls = BIL_CLASSES[fe]
+        base = cls[:BIL_OLD[fe]]
+        rnd = [c for c in base if BIL_DEP[c] == 'r']
+        for l, r in itertools.product(cls, repeat=2):
+            # sums / declaration styles: against every basic class in both orders (thorough: against everything)
+            if not thorough and l not in base and r not in base:
+                continue
+            if not thorough and (l not in base or r not in base) and not (l in rnd or r in rnd or l in ('x', 'xs')
+                                                                          or r in ('x', 'xs')):
+                continue
             for op in ('mul', 'matmul'):
                 yield {'k': 'bil', 'fe': fe, 'l': l, 'r': r, 'op': op}
     # 2. acceptance decisions and meaning, shallow chains first
@@ -139,6 +159,22 @@ def gen_cases(tier, seed):
                 uses = R.USE_NAMES if (thorough or len(chain) <= 1) else R.USES7
                 for c in _mean_cases(fe, atom, chain, uses, pal0, 4 if thorough else 2, False):
                     yield c
+    # 2c. expectation of piecewise with the chain (or its first symbol) applied INSIDE E(.)
+    for atom in R.INSIDE_ATOMS:
+        depths = (0, 1, 2) if atom.endswith('@in') else (2,)
+        if thorough:
+            depths = depths + (3,)
+        for depth in depths:
+            for chain in _chains(A12 + EXT if depth == 1 else A12, depth):
+                for use in (R.USE_NAMES if depth < 3 else R.USES7):
+                    yield {'k': 'acc', 'fe': 'dro', 'atom': atom, 'chain': chain, 'use': use, 'pal': pal0}
+            if depth <= 1 or thorough or atom == 'Eminof@in':
+                if depth == 3:
+                    continue
+                for chain in _chains(A12, depth):
+                    uses = R.USE_NAMES if (depth == 0 or thorough) else R.USES7
+                    for c in _mean_cases('dro', atom, chain, uses, pal0, 4 if depth < 2 or thorough else 2, depth == 0):
+                        yield c
     # 3. depth 3 (thorough: all atoms, all uses; quick: one atom per class family, 7 uses)
     for fe in FES:
         for atom in (R.atoms_of(fe) if thorough else DEEP_ACC[fe]):
@@ -182,6 +218,7 @@ def bounds(tier):
             'extra_symbols_depth2_atoms': 'all' if th else EXT2,
             'perspective_family': {'atoms': R.PERSP_ATOMS, 'pre': R.PERSP_PRE, 'scaling': R.PERSP_MUL,
                                    'post': R.PERSP_POST},
+            'expectation_inside': {'atoms': R.INSIDE_ATOMS, 'acc_depth': 3 if th else 2, 'meaning_depth': 2},
             'palettes': 4 if th else 1, 'bilinear_classes': BIL_CLASSES}
 
 
@@ -208,15 +245,27 @@ def run_case(case):
 
 
 def _build_expr(env, atom, chain):
-    """returns (expr, None) or (None, 'stage:Exc')"""
+    """returns (expr, None) or (None, 'stage:Exc').  Atoms 'E..@in' / 'E..@1' take the expectation after the whole
+    chain / after its first symbol has been applied to the piecewise expression."""
     B = _B['B']
+    e_after = None
+    base = atom
+    if '@' in atom:
+        base, mode = atom.split('@')
+        base = 'PW' + base[1:]
+        e_after = len(chain) if mode == 'in' else min(1, len(chain))
     try:
-        g = B.build_atom(env, atom)
+        g = B.build_atom(env, base)
+        if e_after == 0:
+            g = B.init()['E'](g)
     except Exception as ex:  # noqa
         return None, 'atom:' + B.exc_name(ex)
     for i, sym in enumerate(chain):
         try:
             g = B.apply_symbol(env, g, sym)
+            if e_after == i + 1:
+                env.ops += 1
+                g = B.init()['E'](g)
         except Exception as ex:  # noqa
             return None, 'chain:' + B.exc_name(ex)
         if g is None or g is NotImplemented:
@@ -460,6 +509,8 @@ def _bil_operand(env, cls, slot):
         if cls == 'zs':
             return z[0]
         return E(z)
+    if ':' in cls or '+' in cls or '-' in cls:
+        return _bil_composite(env, cls)
     if cls in ('ldr', 'ldrs', 'ldr0'):
         v = m.ldr(2)
         if cls == 'ldr0':
@@ -470,6 +521,57 @@ def _bil_operand(env, cls, slot):
         v = m.dvar(2)
         p = v * env.zz
         return p if cls == 'xz' else E(p)
+    raise ValueError(cls)
+
+
+def _adaptive(env, style):
+    """a 2-vector decision rule (ro: ldr, dro: dvar) whose dependence on zz is declared in the given style"""
+    m = env.m
+    v = m.ldr(2) if env.fe == 'ro' else m.dvar(2)
+    zz = env.zz
+    if style == 'whole':
+        v.adapt(zz)
+    elif style == 'entry':
+        for j in range(2):
+            for i in range(2):
+                v[j].adapt(zz[i])
+    elif style == 'partial':
+        v[0].adapt(zz[0])
+    elif style == 'slice':
+        v[:1].adapt(zz)
+    else:
+        raise ValueError(style)
+    env.ops += 2
+    return v
+
+
+def _bil_composite(env, cls):
+    import numpy as np
+    m = env.m
+    name = cls.replace('ldr', 'AD').replace('xad', 'AD')
+    if name in ('AD:entry', 'AD:partial', 'AD:slice'):
+        return _adaptive(env, name.split(':')[1])
+    if name in ('ADs:partial', 'ADs:entry'):
+        return _adaptive(env, name.split(':')[1])[0]
+    x = m.dvar(2)
+    if name == 'x+AD':
+        return x + _adaptive(env, 'whole')
+    if name == 'AD+x':
+        return _adaptive(env, 'whole') + x
+    if name == 'x-AD':
+        return x - _adaptive(env, 'whole')
+    if name == '2x+3AD':
+        return 2 * x + 3 * _adaptive(env, 'whole')
+    if name == '1+x+AD':
+        return 1 + x + _adaptive(env, 'whole')
+    if name == 'xs+ADs':
+        return x[0] + _adaptive(env, 'whole')[0]
+    if name == 'x+AD:entry':
+        return x + _adaptive(env, 'entry')
+    if name == 'x+AD:partial':
+        return x + _adaptive(env, 'partial')
+    if name == 'AD:slice+x':
+        return _adaptive(env, 'slice') + x
     raise ValueError(cls)
 
 
